@@ -110,6 +110,10 @@ class Chooser:
             s = self.r.choice(first) + "".join(self.r.choice(rest) for _ in range(n - 1))
             if self.r.random() < 0.3:
                 s = self.r.choice(["loop", "let", "map", "register", "macro", "from", "as", "subcircuit", "branch", "e", "E", "x0"]) + s
+            while self.r.random() < 0.12:
+                # the identifier token only restricts its FIRST character: parts after a dot
+                # may begin with a digit (`a.1`, `q.0x`)
+                s += "." + "".join(self.r.choice(rest) for _ in range(self.r.choice([1, 1, 2, 4])))
             if s not in KEYWORDS and s != "version":
                 return s
 
@@ -157,8 +161,8 @@ REG_POOL = ["q", "r", "reg", "Q"]
 MAP_POOL = ["u", "v", "w", "t", "s", "z", "aa", "bb"]
 MACRO_POOL = ["m0", "m1", "m2", "F", "G", "H", "foo", "bar"]
 PARAM_POOL = ["p", "o", "e", "f", "d"]
-GATE_POOL = ["g", "h", "Rx", "MS", "X", "Sx", "gate.with.dots", "G_1"]
-PULSE_POOL = ["qscout.v1.std", "a.b", "mod", ".local", ".x.y", "pkg.sub.mod"]
+GATE_POOL = ["g", "h", "Rx", "MS", "X", "Sx", "gate.with.dots", "G_1", "g.1"]
+PULSE_POOL = ["qscout.v1.std", "a.b", "mod", ".local", ".x.y", "pkg.sub.mod", "pkg.2x", ".cal.2024_a"]
 
 
 @dataclass
@@ -476,11 +480,21 @@ class Builder:
                 twin = copy.deepcopy(out[-1])
                 if twin[0] == "g":
                     nums = [a for a in twin[2] if a[0] == "n" and a[1] in _HASH_TWINS]
+                    near = [a for a in twin[2] if a[0] == "n" and isinstance(a[1], float) and a[1] == a[1] and 1e-300 < abs(a[1]) < 1e300]
                     # not in macro calls: there the number may be an index or a loop count
                     # (an index of 2**61-1 is invalid, a count of 2**61 never finishes)
-                    if nums and ch.bool() and twin[1] not in {m[0] for m in self.sc.macros}:
+                    plain = twin[1] not in {m[0] for m in self.sc.macros}
+                    if nums and ch.bool() and plain:
                         a = ch.pick(nums)
                         a[1] = _HASH_TWINS[a[1]]
+                    elif near and ch.bool() and plain:
+                        # ... or by a NEARBY number: one float step, or agreeing to 6-12 digits
+                        import math
+
+                        a = ch.pick(near)
+                        k = ch.int(0, 3)
+                        a[1] = math.nextafter(a[1], math.inf) if k == 0 else a[1] * (1 + ch.pick([1e-7, -1e-9, 1e-12]))
+                        self.flag("near-twin-number")
                     out.append(twin)
                     self.flag("twin-statement")
                 elif twin[0] == "loop" and ctx != "par":
